@@ -155,6 +155,10 @@ Definition gout (x : Qc) : Z * Z := (Qnum (this x), Zpos (Qden (this x))).
 Definition run_geT (T : Z) (N : nat) blocks U Tg Zs outs : option (list (list (list (list (Z * Z))))) :=
   option_map (fun r => map (map (map (map gout))) (ge_out r)) (ge_solveT T N blocks U Tg Zs outs).
 
+(** plain (partial-equilibrium) Jacobian of the DAG: CombinedBlock._jacobian's forward accumulation *)
+Definition run_jacT (T : Z) (N : nat) blocks (Zs outs : list nat) : list (list (list (list (Z * Z)))) :=
+  map (fun z => let tot := totE T N blocks z in map (fun o => map (map gout) (to_dense T (tot o))) outs) Zs.
+
 (** ---- a SolvedBlock inside a model: its Jacobian is the inner general-equilibrium Jacobian (dense) with respect to its inputs ---- *)
 Definition solved_block (T : Z) (N : nat) (inner : list (cblock opr)) (U Tg ins outs : list nat) : option (cblock opr) :=
   match ge_solveT T N inner U Tg ins outs with
